@@ -14,7 +14,7 @@ package bint
 //@   props C17
 //@   ensures nbytes(n) == (n == 0 ? 0 : 1 + nbytes(n >> 8))
 
-//@ func Decode props=C17,C10
+//@ func Decode props=C17,C10,C09
 //@   ensures result == be(b, len(b))
 //@   loop#0 invariant 0 <= i && i <= len(b) && n == be(b, i)
 //@   loop#0 decreases len(b) - i
